@@ -4,7 +4,7 @@
 From Coq Require Import ZArith List Bool.
 From V Require Import base.Cal gen.RrTables rr.RRBase rr.RRNorm rr.RRMasks rr.RRIter rr.RRSpec
   rr.RRTablesThm rr.RRIterThm rr.RRRefuted rr.RRWeekDefs rr.RRWeekThm rr.RRWeekFinal rr.RRWeekCal
-  rr.RRWeekTop rr.RROverlay rr.RREasterThm rr.RRNwdThm rr.RRAdvanceThm rr.RRNwdCal rr.RRDaysetThm rr.RRSubdailyThm rr.RRFilterThm rr.RRFilterSpec rr.RRPassThm rr.RRGateThm rr.RRTimesetThm rr.RRYearlyThm rr.RRYearlyEasterThm.
+  rr.RRWeekTop rr.RROverlay rr.RREasterThm rr.RRNwdThm rr.RRAdvanceThm rr.RRNwdCal rr.RRDaysetThm rr.RRSubdailyThm rr.RRFilterThm rr.RRFilterSpec rr.RRPassThm rr.RRGateThm rr.RRTimesetThm rr.RRYearlyThm rr.RRYearlyEasterThm rr.RRCountThm rr.RRYearlyCountThm rr.RRYearlyUntilThm.
 Import ListNotations.
 Open Scope Z_scope.
 
@@ -518,3 +518,34 @@ Theorem C01_rrule_iter_correct_easter_partial : forall r rl limit n,
   fst (iterate rl limit n) = fst (spec_iter r limit n).
 Proof. exact yearly_iter_correct_e. Qed.
 Print Assumptions C01_rrule_iter_correct_easter_partial.
+
+(* once COUNT is used up the generator's loop adds nothing more -- every rule, every frequency *)
+Theorem C01_count_exhausted_stops : forall rl limit n s,
+  dead s -> fst (run rl limit n s) = c_out s.
+Proof. exact run_dead. Qed.
+Print Assumptions C01_count_exhausted_stops.
+
+(* the family theorem WITH COUNT (and optional BYEASTER); no UNTIL.  The specification stops at the
+   beginning of the step after COUNT is used up, the code scans on: same yielded instants for every
+   number of passes *)
+Theorem C01_rrule_iter_correct_count_partial : forall r rl limit n,
+  normalize r = Ok rl -> yfam_c r -> 2 <= r_y r -> r_y r + Z.of_nat n * r_interval r <= 9999 ->
+  (r_byeaster r = None \/ (1583 <= r_y r /\ r_y r + Z.of_nat n * r_interval r <= 4099)) ->
+  fst (iterate rl limit n) = fst (spec_iter r limit n).
+Proof. exact yearly_iter_correct_c. Qed.
+Print Assumptions C01_rrule_iter_correct_count_partial.
+
+(* THE STRONGEST FORM PROVED: the family theorem with COUNT and UNTIL (and optional BYEASTER).
+   yfam_u r = spec_wf r, FREQ = YEARLY, no BYSETPOS, BYDAY plain (no nth weekday), BYWEEKNO members in
+   -51..51 (the guard of F-C01-weekno); any interval, wkst, BYMONTH, BYMONTHDAY (+/-), BYYEARDAY (+/-),
+   BYHOUR / BYMINUTE / BYSECOND, COUNT, UNTIL, date or datetime start with year >= 2.  For every number
+   of passes n that stays within year 9999 (within 1583..4099 when BYEASTER is used) and every limit,
+   the model of dateutil's generator and the specification yield the same instants in the same
+   order.  The specification stops period-wise on UNTIL / COUNT, the code at the first candidate that
+   trips the gate (possibly one before dtstart) or never: the yielded instants agree all the same. *)
+Theorem C01_rrule_iter_correct_yearly_partial : forall r rl limit n,
+  normalize r = Ok rl -> yfam_u r -> 2 <= r_y r -> r_y r + Z.of_nat n * r_interval r <= 9999 ->
+  (r_byeaster r = None \/ (1583 <= r_y r /\ r_y r + Z.of_nat n * r_interval r <= 4099)) ->
+  fst (iterate rl limit n) = fst (spec_iter r limit n).
+Proof. exact yearly_iter_correct_u. Qed.
+Print Assumptions C01_rrule_iter_correct_yearly_partial.
